@@ -85,16 +85,28 @@ class Invalid(Exception):
     pass
 
 
-def decode(data, pos=0, depth=0):
+def decode(data, pos=0, depth=0, pins=None):
     """Reference decoder: returns (value, newpos). value = (code, payload) with payload
     list of ints (ints, B, BOOLEAN as 0/1.., A/J raw bytes), list of floats bit patterns (F4/F8 as ints of raw bits)
-    or list of values (L). Accepts 1..3 length bytes regardless of magnitude; 0 length bytes is invalid (E5)."""
+    or list of values (L). Accepts 1..3 length bytes regardless of magnitude; 0 length bytes is invalid (E5).
+    pins (optional list) collects (position, concrete format byte): under symbolic execution the format byte is compared
+    against every legal value, so on each path it is known concretely and the caller may substitute it."""
     if pos >= len(data):
         raise Invalid("no format byte")
     fb = data[pos]
     code, nlb = fb // 4, fb % 4
-    if nlb == 0 or code not in ALL_CODES:
+    ccode = cnlb = None
+    for c in ALL_CODES:
+        if code == c:
+            ccode = c
+    for k in (1, 2, 3):
+        if nlb == k:
+            cnlb = k
+    if ccode is None or cnlb is None:
         raise Invalid("format byte")
+    code, nlb = ccode, cnlb
+    if pins is not None:
+        pins.append((pos, code * 4 + nlb))
     if pos + 1 + nlb > len(data):
         raise Invalid("length bytes")
     length = 0
@@ -104,7 +116,7 @@ def decode(data, pos=0, depth=0):
     if code == L:
         items = []
         for _ in range(length):
-            v, pos = decode(data, pos, depth + 1)
+            v, pos = decode(data, pos, depth + 1, pins)
             items.append(v)
         return (L, items), pos
     if pos + length > len(data):
